@@ -77,17 +77,23 @@ Glob(p, s)  == GlobC(Chars(p), Chars(s))
 (* File patterns.  The file of a finding is the path as cppcheck prints it  *)
 (* (relative to the directory it runs in when the sources are given         *)
 (* relative).  A leading `./` of a pattern names that same directory.       *)
-(*   yes   the pattern matches the whole path, or it matches a leading      *)
-(*         part of the path that ends where a directory name ends (a        *)
-(*         pattern that names a directory covers the files below it)        *)
-(*   open  the pattern only matches a part of the path that starts after a  *)
-(*         path separator (a pattern without its directories: the manual is *)
-(*         silent on whether `h.h` or `*.h` reaches inc/h.h)                *)
+(*   yes   the pattern matches the whole path; or the pattern is a plain    *)
+(*         directory name (no wildcard) and the path lies below it - the    *)
+(*         manual's "-itest": test/somefile.cpp yes, test1.cpp no           *)
+(*   open  a wildcard pattern matches only a leading part of the path that  *)
+(*         ends where a directory name ends (the manual's file-filter       *)
+(*         example `src/test*` excludes src/test/file1.cpp, the class       *)
+(*         comment of lib/pathmatch.h includes it); or the pattern only     *)
+(*         matches a part of the path that starts after a path separator (a *)
+(*         pattern without its directories: the manual is silent on whether *)
+(*         `h.h` or `*.h` reaches inc/h.h)                                  *)
 (*   no    otherwise                                                        *)
 (***************************************************************************)
 RECURSIVE StripDotSlash(_)
 StripDotSlash(p) ==
   IF Len(p) >= 2 /\ p[1] = "." /\ p[2] = Sep THEN StripDotSlash(SubSeq(p, 3, Len(p))) ELSE p
+
+HasWild(p) == \E i \in 1..Len(p) : p[i] \in {"*", "?"}
 
 FileMatchC(pc, t) ==
   LET p      == StripDotSlash(pc)
@@ -96,7 +102,7 @@ FileMatchC(pc, t) ==
       whole  == GlobC(p, t)
       prefix == \E j \in ends : GlobC(p, SubSeq(t, 1, j))
       part   == \E i \in starts : \E j \in ends \cup {Len(t)} : j >= i /\ GlobC(p, SubSeq(t, i, j))
-  IN IF whole \/ prefix THEN "yes" ELSE IF part THEN "open" ELSE "no"
+  IN IF whole \/ (prefix /\ ~HasWild(p)) THEN "yes" ELSE IF prefix \/ part THEN "open" ELSE "no"
 
 FileMatch3(pat, path) == FileMatchC(Chars(pat), Chars(path))
 
@@ -373,8 +379,11 @@ Match3(s, f, unbal) ==
 Unbal(S) == {s.file : s \in {x \in S : x.k \in {"beg", "end"}}}
 
 \* the table form x palette finding, computed once
-MatchTab == [n \in FormNames |-> [f \in Palette |-> [u \in BOOLEAN |->
-               Match3(FormOf(n), f, IF u THEN {FormOf(n).file} ELSE {})]]]
+\* (every zero-arity definition is evaluated when TLC starts: the heavy ones are guarded by the step that needs them)
+MatchTab == IF Mode \in {"judge", "laws"}
+            THEN TLCEval([n \in FormNames |-> [f \in Palette |-> [u \in BOOLEAN |->
+                            Match3(FormOf(n), f, IF u THEN {FormOf(n).file} ELSE {})]]])
+            ELSE <<>>
 M3(n, f, S) == MatchTab[n][f][FormOf(n).file \in Unbal(S)]
 
 MustHide(F, S)   == {f \in F : \E s \in S : M3(s.n, f, S) = "yes"}
@@ -559,4 +568,190 @@ RunMeanings(r) ==
           : i \in 1..Len(r.xml)}
   \cup SlotMeanings(r.slots)
 
+
+(***************************************************************************)
+(* Step "gen": the case space.                                                          *)
+(***************************************************************************)
+FormList == TLCEval(SetToSeq(Forms))                 \* fixed order of the forms for this TLC run; picks refer to names
+NF == Len(FormList)
+PC == IF Mode = "gen" THEN TLCEval([i \in 1..NF |-> [j \in 1..NF |-> i # j /\ Compat2(FormList[i], FormList[j])]]) ELSE <<>>
+\* every compatible set of at most three forms (Compatible is a pairwise condition); the triples are only written
+\* when IOEnv.TRIPLES = "yes" (a set of three is in the space iff its three pairs are)
+Singles == IF Mode = "gen" THEN {<<i>> : i \in 1..NF} ELSE {}
+Pairs   == IF Mode = "gen" THEN UNION {{<<i, j>> : j \in {j \in (i + 1)..NF : PC[i][j]}} : i \in 1..NF} ELSE {}
+Triples == IF Mode = "gen" /\ IOEnv.TRIPLES = "yes"
+           THEN UNION {UNION {{<<i, j, k>> : k \in {k \in (j + 1)..NF : PC[i][k] /\ PC[j][k]}}
+                               : j \in {j \in (i + 1)..NF : PC[i][j]}} : i \in 1..NF}
+           ELSE {}
+
+Meta == IF Mode # "gen" THEN <<>> ELSE
+  [files   |-> [i \in 1..Len(FileNames) |-> [name |-> FileNames[i], lines |-> Skel(FileNames[i])]],
+   sources |-> Sources,
+   snips   |-> SetToSeq(Snips),
+   palette |-> SetToSeq({[snip |-> f.snip, file |-> f.file, line |-> f.line, col |-> f.col, id |-> f.id,
+                          syms |-> SetToSeq(f.syms), style |-> f.style] : f \in Palette}),
+   forms   |-> [i \in 1..NF |-> [n |-> FormList[i].n, k |-> FormList[i].k, surfaces |-> SetToSeq(Surfaces(FormList[i]))]],
+   nofail  |-> SetToSeq(NoFailSets),
+   fills   |-> SetToSeq(Fills),
+   maxvar  |-> MaxVar]
+
+ASSUME Mode = "gen" =>
+         /\ Cardinality(FormNames) = Cardinality(Forms)          \* names are unique
+         /\ PrintT(<<"FORMS", NF, "SPACE", Cardinality(Singles), Cardinality(Pairs), Cardinality(Triples)>>)
+         /\ ndJsonSerialize(IOEnv.OUT, <<Meta>>)
+         /\ ndJsonSerialize(IOEnv.OUT2, SetToSeq(Singles) \o SetToSeq(Pairs) \o SetToSeq(Triples))
+
+(***************************************************************************)
+(* Step "render".                                                           *)
+(***************************************************************************)
+Picks == IF Mode = "render" THEN ndJsonDeserialize(IOEnv.PICKS) ELSE <<>>
+Rendered == [i \in 1..Len(Picks) |-> [pick |-> Picks[i], runs |-> Runs(FormSeq(Picks[i]), Picks[i].var)]]
+
+\* every surface form of a case means the case (blocks of a file with an unbalanced begin / end are not compared:
+\* their comments do not say which begin an end belongs to)
+MeaningsOK(p, r) ==
+  LET S  == {FormOf(p.forms[i]) : i \in 1..Len(p.forms)}
+      ub == Unbal(S)
+      keep(m) == ~(m.k \in {"blk", "beg", "end"} /\ m.file \in ub)
+  IN {m \in RunMeanings(r) : keep(m)} = {m \in {Meaning(s) : s \in S} : keep(m)}
+
+ASSUME Mode = "render" =>
+         /\ \A i \in 1..Len(Picks) : PickOK(Picks[i]) \/ (PrintT(<<"BADPICK", i, Picks[i]>>) /\ FALSE)
+         /\ \A i \in 1..Len(Picks) : \A j \in 1..Len(Rendered[i].runs) :
+               MeaningsOK(Picks[i], Rendered[i].runs[j].run) \/ (PrintT(<<"BADRENDER", i, j, Rendered[i]>>) /\ FALSE)
+         /\ PrintT(<<"RENDERED", Len(Picks)>>)
+         /\ ndJsonSerialize(IOEnv.OUT, Rendered)
+
+(***************************************************************************)
+(* Step "judge", baseline: the unsuppressed project reports exactly the palette    *)
+(* (id, file, line, column, symbols as printed by --xml).                   *)
+(***************************************************************************)
+Base == IF Mode = "judge" THEN ndJsonDeserialize(IOEnv.BASE) ELSE <<>>
+BaseOK(o) ==
+  {<<f.file, f.line, f.col, f.id, ToSet(f.syms)>> : f \in ToSet(o.findings)}
+     = {<<f.file, f.line, f.col, f.id, f.syms>> : f \in Findings(ToSet(o.present), o.style)}
+BaseBad == {i \in DOMAIN Base : ~BaseOK(Base[i])}
+ASSUME Mode = "judge" =>
+         /\ PrintT(<<"BASELINE", Len(Base), "BAD", Cardinality(BaseBad)>>)
+         /\ ndJsonSerialize(IOEnv.BASEOUT, [i \in 1..Cardinality(BaseBad) |-> Base[SetToSeq(BaseBad)[i]]])
+
+(***************************************************************************)
+(* Step "judge".  An observation: [pick, runs: <<[modes, findings]>>], the  *)
+(* findings as <<[file, line, col, id]>>.                                   *)
+(***************************************************************************)
+Obs == IF Mode = "judge" THEN ndJsonDeserialize(IOEnv.OBS) ELSE <<>>
+
+ObsKeys(r) == {<<f.file, f.line, f.col, f.id>> : f \in ToSet(r.findings)}
+FormsOfPick(p) == {FormOf(p.forms[i]) : i \in 1..Len(p.forms)}
+
+\* What is wrong with one run: findings that must be reported and are not, findings that must be hidden and are
+\* shown, findings that are not findings of the project at all.  A report about a malformed suppression comment is
+\* tolerated (not demanded) where the case contains an unbalanced begin / end.
+Wrong(p, r) ==
+  LET S == FormsOfPick(p)
+      F == Findings(ToSet(p.present), p.style)
+      o == ObsKeys(r)
+  IN [missing |-> {Key(f) : f \in MustReport(F, S)} \ o,
+      shown   |-> {Key(f) : f \in MustHide(F, S)} \cap o,
+      extra   |-> {k \in o \ {Key(f) : f \in F} : ~(k[4] = "invalidSuppression" /\ Unbal(S) # {})},
+      refused |-> r.rc # 0]                \* cppcheck did not accept the command line / files (default exit code is 0)
+IsWrong(w) == w.missing # {} \/ w.shown # {} \/ w.extra # {} \/ w.refused
+
+SurfacesAgree(c) == Cardinality({ObsKeys(c.runs[j]) : j \in 1..Len(c.runs)}) <= 1
+
+(***************************************************************************)
+(* Classes of deviations (the identity of a known finding).  A class is an  *)
+(* alternative reading under which the observation would be right; it       *)
+(* names the deviation, it never excuses it.                                *)
+(*                                                                         *)
+(*  end-closes-latest-begin   a cppcheck-suppress-end closes the most       *)
+(*      recent open begin whatever its id (and takes its range), instead of *)
+(*      the begin of its own id                                             *)
+(*  same-id-file-line-dropped   a suppression is ignored when another one   *)
+(*      with the same id, file, line and symbol exists, although the two    *)
+(*      differ in kind (a block or a file-level comment whose comment       *)
+(*      stands on that line)                                                *)
+(***************************************************************************)
+\* alternative 1: pair every end with the latest begin before it that is still open, in file order
+AltBlocks(S, file) ==
+  LET bl   == {s \in S : s.k = "blk" /\ s.file = file}
+      begs == {[id |-> s.id, sym |-> s.sym, l |-> s.b] : s \in bl} \cup {[id |-> s.id, sym |-> s.sym, l |-> s.b] : s \in {x \in S : x.k = "beg" /\ x.file = file}}
+      ends == {[id |-> s.id, sym |-> s.sym, l |-> s.e] : s \in bl} \cup {[id |-> s.id, sym |-> s.sym, l |-> s.e] : s \in {x \in S : x.k = "end" /\ x.file = file}}
+      evs  == SortSeq(SetToSeq({[t |-> "b", x |-> b] : b \in begs} \cup {[t |-> "e", x |-> e] : e \in ends}),
+                      LAMBDA u, v : u.x.l < v.x.l \/ (u.x.l = v.x.l /\ u.t = "b" /\ v.t = "e"))
+      RECURSIVE go(_, _, _)
+      \* open: sequence of open begins (latest last); res: set of blocks [id, sym, b, e]
+      go(i, open, res) ==
+        IF i > Len(evs) THEN res
+        ELSE IF evs[i].t = "b" THEN go(i + 1, Append(open, evs[i].x), res)
+        ELSE IF open = <<>> THEN go(i + 1, open, res)
+        ELSE LET lastl == Last(open).l
+                 cand  == {k \in 1..Len(open) : open[k].l = lastl /\ open[k].sym = evs[i].x.sym}
+             IN IF cand = {} THEN go(i + 1, open, res)
+                ELSE LET k == CHOOSE k \in cand : \A k2 \in cand : k <= k2
+                     IN go(i + 1, [n \in 1..(Len(open) - 1) |-> IF n < k THEN open[n] ELSE open[n + 1]],
+                           res \cup {[id |-> evs[i].x.id, sym |-> evs[i].x.sym, b |-> open[k].l, e |-> evs[i].x.l]})
+  IN go(1, <<>>, {})
+
+AltHidden1(F, S) ==
+  {f \in F : \/ \E s \in {x \in S : x.k \notin {"blk", "beg", "end"}} : M3(s.n, f, {}) # "no"
+             \/ \E b \in AltBlocks(S, f.file) : Glob(b.id, f.id) /\ (b.sym = "" \/ \E y \in f.syms : Glob(b.sym, y)) /\ b.b <= f.line /\ f.line <= b.e}
+
+\* alternative 2: of two forms with the same id, file, line-of-the-comment and symbol only the one given first
+\* (command line, files, then inline comments) takes effect
+CommentLine(s) == IF s.k = "std" THEN (IF s.line = 0 /\ s.at # NoAt THEN 1 ELSE s.line) ELSE IF s.k = "blk" THEN s.b ELSE IF s.k = "two" THEN s.line ELSE -1
+SameParams(s, t) == s.id = t.id /\ s.sym = t.sym /\ CommentLine(s) = CommentLine(t) /\ CommentLine(s) > 0
+                    /\ FileMatch3(s.file, t.file) = "yes" /\ s.file # "" /\ StripDotSlash(Chars(s.file)) = Chars(t.file)
+Dropped(S, r) == {t \in S : \E s \in S : s # t /\ SameParams(s, t) /\ s.k = "std" /\ t.k # "std"}
+
+Class(p, r, w) ==
+  LET S == FormsOfPick(p)
+      F == Findings(ToSet(p.present), p.style)
+      o == ObsKeys(r)
+      inF == {Key(f) : f \in F} \cap o
+      hid == {Key(f) : f \in F} \ o
+      S2 == S \ Dropped(S, r)
+  IN IF w.refused THEN "refused"
+     ELSE IF w.extra # {} THEN "extra-finding"
+     ELSE IF \E s \in S : s.k = "blk" /\ hid = {Key(f) : f \in AltHidden1(F, S)} /\ r.run.inline
+       THEN "end-closes-latest-begin"
+     ELSE IF S2 # S /\ r.run.inline /\ {Key(f) : f \in MustReport(F, S2)} \subseteq o /\ {Key(f) : f \in MustHide(F, S2)} \cap o = {}
+       THEN "same-id-file-line-dropped"
+     ELSE "other"
+
+BadRuns ==
+  UNION {{[case |-> i, run |-> j] : j \in {j \in 1..Len(Obs[i].runs) : IsWrong(Wrong(Obs[i].pick, Obs[i].runs[j]))}} : i \in 1..Len(Obs)}
+BadSurf == {i \in 1..Len(Obs) : ~SurfacesAgree(Obs[i])}
+
+BadOut ==
+  [n \in 1..Cardinality(BadRuns) |->
+     LET b == SetToSeq(BadRuns)[n]
+         c == Obs[b.case]
+         r == c.runs[b.run]
+         w == Wrong(c.pick, r)
+     IN [kind |-> "run", case |-> b.case, run |-> b.run, pick |-> c.pick, modes |-> r.modes,
+         missing |-> SetToSeq(w.missing), shown |-> SetToSeq(w.shown), extra |-> SetToSeq(w.extra),
+         class |-> Class(c.pick, r, w)]]
+  \o [n \in 1..Cardinality(BadSurf) |->
+        LET i == SetToSeq(BadSurf)[n]
+        IN [kind |-> "surface", case |-> i, run |-> 0, pick |-> Obs[i].pick,
+            modes |-> [j \in 1..Len(Obs[i].runs) |-> Obs[i].runs[j].modes],
+            missing |-> <<>>, shown |-> <<>>, extra |-> <<>>,
+            class |-> IF \E j \in 1..Len(Obs[i].runs) : IsWrong(Wrong(Obs[i].pick, Obs[i].runs[j])) THEN "follows-from-run" ELSE "surface-forms-disagree"]]
+
+\* measured for the evidence: decided / open verdicts over all judged (run, finding) pairs
+Decided ==
+  LET per(i) == LET p == Obs[i].pick
+                    S == FormsOfPick(p)
+                    F == Findings(ToSet(p.present), p.style)
+                IN <<Cardinality(MustReport(F, S)), Cardinality(MustHide(F, S)), Cardinality(F)>>
+      RECURSIVE sum(_, _)
+      sum(i, acc) == IF i > Len(Obs) THEN acc
+                     ELSE LET x == per(i) IN sum(i + 1, <<acc[1] + x[1] * Len(Obs[i].runs), acc[2] + x[2] * Len(Obs[i].runs), acc[3] + x[3] * Len(Obs[i].runs)>>)
+  IN sum(1, <<0, 0, 0>>)
+
+ASSUME Mode = "judge" =>
+         /\ PrintT(<<"JUDGED", Len(Obs), "BADRUNS", Cardinality(BadRuns), "BADSURF", Cardinality(BadSurf)>>)
+         /\ PrintT(<<"VERDICTS", Decided[1], Decided[2], Decided[3]>>)
+         /\ ndJsonSerialize(IOEnv.OUT, BadOut)
 =============================================================================
